@@ -3,12 +3,12 @@
   last sentence).
 
   * `NoReservedDecls env t` (decidable, on the TREE): the guard that delimits the known findings
-    `C03:reserved-prefix-or-namespace-rebound-accepted` / `C03:prefixed-undeclaration-accepted`:
-    no namespace node binds the prefix `xml` or `xmlns`, binds anything to the XML namespace name or
-    to the xmlns namespace name, or binds a non-empty prefix to the empty namespace name.
+    `C03:xml-prefix-rebound-accepted` / `C03:not-representable-xml-prefix-rebound`: no namespace node
+    declares the prefix `xml`.  (The other reserved declarations and `xmlns:p=""` are refused by the
+    parser since /repo 6153ddf, a5dcf8e: `ValAcc` of a namespace node records `reservedDecl = false`.)
   * `PlainPiTargets env t` (decidable, on the tree): every processing-instruction target is an NCName
-    other than `xml` in any letter case — what `Representable` (Model/SerTokens.lean) asks and the
-    tokenizer does NOT check (`consume_name`).
+    (no colon) — what `Representable` (Model/SerTokens.lean) asks and the tokenizer does NOT check
+    (`consume_name`).  (The target `xml` in any letter case is refused since /repo 002854f.)
   * `ValAcc` / `TreeAcc`: what the builder guarantees of every node of an accepted tree, in the scope
     of the declarations of its ancestors (`st`: the builder's namespace stack at that node), with
     all ids inside the tables — so that it is monotone in the tables (`EnvApp`).
@@ -45,10 +45,11 @@ def base2 : NsStack := [[(Env.emptyPrefix, Env.noNamespace)], [(Env.xmlPrefix, E
 
 def dataAcc : Option Str → Bool
   | none => true
-  | some d => !d.isEmpty && !(d.head?.any isXmlSpace) && d.all isXmlChar && !hasInfix ['?', '>'] d
+  | some d => !d.isEmpty && !(d.head?.any isXmlSpace) && d.all isXmlChar && !hasInfix ['?', '>'] d &&
+    !d.contains '\r'
 
 def commentAcc (s : Str) : Bool :=
-  s.all isXmlChar && !hasInfix ['-', '-'] s && s.getLast? != some '-'
+  s.all isXmlChar && !hasInfix ['-', '-'] s && s.getLast? != some '-' && !s.contains '\r'
 
 /-- One value, in the scope `st` (the builder's stack: for an element its own declarations on top). -/
 def ValAcc (env : Env) (st : NsStack) : Value → Prop
@@ -60,7 +61,8 @@ def ValAcc (env : Env) (st : NsStack) : Value → Prop
   | .comment s => commentAcc s = true
   | .pi target data =>
     target < env.names.length ∧ env.nsOfName target = Env.noNamespace ∧
-      nameOK (env.localName target) = true ∧ dataAcc data = true
+      nameOK (env.localName target) = true ∧ dataAcc data = true ∧
+      isReservedPiTarget (env.localName target) = false
   | .attribute name v =>
     name < env.names.length ∧ ncNameNE (env.localName name) = true ∧ v.all isXmlChar = true ∧
       (name = Env.xmlIdName → normalizeXmlId v = v) ∧
@@ -68,7 +70,8 @@ def ValAcc (env : Env) (st : NsStack) : Value → Prop
         ∃ q, q ≠ Env.emptyPrefix ∧ lookupPrefix st q = some (env.nsOfName name))
   | .namespace p ns =>
     p < env.prefixes.length ∧ ns < env.namespaces.length ∧ ncNameOK (env.prefixStr p) = true ∧
-      (env.namespaceStr ns).all isXmlChar = true
+      (env.namespaceStr ns).all isXmlChar = true ∧
+      reservedDecl (env.prefixStr p) (env.namespaceStr ns) = false
 
 /-- The scope below a node: an element pushes its declarations. -/
 def ctx (v : Value) (ks : List Tree) (st : NsStack) : NsStack :=
@@ -142,18 +145,20 @@ theorem ValAcc.mono {e e' : Env} (h : EnvApp e e') {st : NsStack} : ∀ {v : Val
     · rw [EnvApp.nsOfName h h1]; exact h3
   | .text _, hv => hv
   | .comment _, hv => hv
-  | .pi target data, ⟨h1, h2, h3, h4⟩ => by
-    refine ⟨Nat.lt_of_lt_of_le h1 (EnvApp.names_le h), ?_, ?_, h4⟩
+  | .pi target data, ⟨h1, h2, h3, h4, h5⟩ => by
+    refine ⟨Nat.lt_of_lt_of_le h1 (EnvApp.names_le h), ?_, ?_, h4, ?_⟩
     · rw [EnvApp.nsOfName h h1]; exact h2
     · rw [EnvApp.localName h h1]; exact h3
+    · rw [EnvApp.localName h h1]; exact h5
   | .attribute name v, ⟨h1, h2, h3, h4, h5⟩ => by
     refine ⟨Nat.lt_of_lt_of_le h1 (EnvApp.names_le h), ?_, h3, h4, ?_⟩
     · rw [EnvApp.localName h h1]; exact h2
     · rw [EnvApp.nsOfName h h1, EnvApp.localName h h1]; exact h5
-  | .namespace p ns, ⟨h1, h2, h3, h4⟩ => by
-    refine ⟨Nat.lt_of_lt_of_le h1 (EnvApp.prefixes_le h), Nat.lt_of_lt_of_le h2 (EnvApp.namespaces_le h), ?_, ?_⟩
+  | .namespace p ns, ⟨h1, h2, h3, h4, h5⟩ => by
+    refine ⟨Nat.lt_of_lt_of_le h1 (EnvApp.prefixes_le h), Nat.lt_of_lt_of_le h2 (EnvApp.namespaces_le h), ?_, ?_, ?_⟩
     · rw [EnvApp.prefixStr h h1]; exact h3
     · rw [EnvApp.namespaceStr h h2]; exact h4
+    · rw [EnvApp.prefixStr h h1, EnvApp.namespaceStr h h2]; exact h5
 
 mutual
 theorem TreeAcc.mono {e e' : Env} (h : EnvApp e e') : ∀ {st : NsStack} (t : Tree), TreeAcc e st t → TreeAcc e' st t
